@@ -124,7 +124,7 @@ func (commander *Commander) exec(ctx context.Context, parameters Parameters, scr
 		if err != nil {
 			return nil, nil, errors.Wrap(err, "locking accounts for tx processing")
 		}
-		unlock(ctx)
+		defer unlock(ctx)
 		verifhook.Yield(ctx, "exec.locked")
 
 		err = m.ResolveBalances(ctx, commander.store)
@@ -155,7 +155,16 @@ func (commander *Commander) exec(ctx context.Context, parameters Parameters, scr
 			log = log.WithIdempotencyKey(parameters.IdempotencyKey)
 		}
 
-		return executionContext.AppendLog(ctx, log)
+		chainedLog, done, err := executionContext.AppendLog(ctx, log)
+		if err != nil {
+			return nil, nil, err
+		}
+		// The account locks and the reference reservation (released by the
+		// deferred calls above) must cover the persistence of the log: until
+		// then the store does not reflect this transaction.
+		<-done
+
+		return chainedLog, done, nil
 	})
 }
 
